@@ -4,9 +4,10 @@ set -u
 P="$(realpath "$1")"; shift
 WT=$(mktemp -d /tmp/seedwt.XXXXXX); rmdir "$WT"
 git -C /repo worktree add -q "$WT" HEAD || exit 9
-trap 'git -C /repo worktree remove --force "$WT" 2>/dev/null' EXIT
+trap 'git -C /repo worktree remove --force "$WT" 2>/dev/null; rm -rf "${CW:-/nonexistent}"' EXIT
 ( cd "$WT" && git apply "$P" ) || { echo PATCH-DOES-NOT-APPLY; exit 8; }
+CW=$(mktemp -d /tmp/seedcoq.XXXXXX); cp -a /verif/coq "$CW/coq"; ln -s /verif/translator "$CW/translator"; rm -f "$CW/coq/.build.lock"
 for id in "$@"; do
-  out=$(cd /verif && VERIF_REPO="$WT" ./check "$id" 2>&1 | tail -4)
+  out=$(cd /verif && VERIF_COQ_DIR="$CW/coq" VERIF_REPO="$WT" ./check "$id" 2>&1 | tail -4)
   echo "check $id on patched tree: $(echo "$out" | tr '\n' '|')"
 done
